@@ -301,6 +301,7 @@ fn parse_panic(p: &Value) -> Option<Option<PanicPlan>> {
         phase: match p["phase"].as_str()? {
             "gen" => PanicPhase::Gen,
             "benched" => PanicPhase::Benched,
+            "counter" => PanicPhase::Counter,
             _ => return None,
         },
         tids: p["tids"]
@@ -643,6 +644,7 @@ pub struct LoopCtx {
     gen_count: [AtomicU32; dsim::MAX_THREADS],
     call_count: [AtomicU32; dsim::MAX_THREADS],
     drop_count: [AtomicU32; dsim::MAX_THREADS],
+    counter_count: [AtomicU32; dsim::MAX_THREADS],
     alloc_count: [AtomicU64; dsim::MAX_THREADS],
 }
 
@@ -657,6 +659,7 @@ impl LoopCtx {
             gen_count: [Z32; dsim::MAX_THREADS],
             call_count: [Z32; dsim::MAX_THREADS],
             drop_count: [Z32; dsim::MAX_THREADS],
+            counter_count: [Z32; dsim::MAX_THREADS],
             alloc_count: [Z64; dsim::MAX_THREADS],
         }
     }
@@ -685,6 +688,7 @@ fn with_ctx<R>(f: impl FnOnce(&LoopCtx, usize) -> R) -> Option<R> {
 fn inject_panic(phase: PanicPhase) -> ! {
     probe::fault_fired(match phase {
         PanicPhase::Gen => "panic_in_gen",
+        PanicPhase::Counter => "panic_in_input_counter",
         _ => "panic_in_benched",
     });
     probe::event(UserEv::PanicInjected { phase });
@@ -843,6 +847,12 @@ fn gen_input<I: Val>(c: &LoopCtx) -> I {
 
 fn count_input(c: &LoopCtx, kind: usize, id: u64) -> u64 {
     let tid = probe::tid().unwrap_or(0);
+    let k = c.counter_count[tid].fetch_add(1, Relaxed);
+    for p in c.scn.panic.iter().chain(c.scn.panic2.iter()) {
+        if p.phase == PanicPhase::Counter && p.index == k && p.tids.contains(&tid) {
+            inject_panic(PanicPhase::Counter);
+        }
+    }
     let value = c.scn.counter_value(kind, id);
     probe::event(UserEv::Count { id, kind: kind as u8, value });
     c.alloc_script(tid, phase::COUNTER);
